@@ -4,6 +4,7 @@ CONSTANTS
   MaxGroups = 2
   MaxAlts = 2
   Names <- NamesQuick
+  Sorted = FALSE
   Universe <- Univ
   V2Depth = 1
   V2Operands <- OpsV2
